@@ -264,6 +264,23 @@ fn observe_steps(g: &OGraph) -> Result<Vec<Step>, String> {
     Ok(out)
 }
 
+/// A generated scan program (global `subject`, one stanza on `(module)`) and a subject string; also
+/// used by C02 for the strict/lazy differential on restart positions where `^`/`\b` can tell the
+/// two readings of "starting after the text that was just matched" apart.
+pub fn gen_scan_case(rng: &mut Rng) -> Option<(String, String)> {
+    let spec = gen_spec(rng, 0);
+    let subject = gen_subject(rng);
+    let mut res = Vec::new();
+    if !flatten(&spec, &mut res) {
+        return None;
+    }
+    let mut text = String::from("global subject\n\n(module)\n{\n");
+    let mut counter = 0;
+    emit(&spec, "subject", 0, 1, &mut text, &mut counter);
+    text.push_str("}\n");
+    Some((text, subject))
+}
+
 impl Prop for C10 {
     fn id(&self) -> &'static str {
         "C10"
